@@ -14,6 +14,8 @@ type Ctx struct {
 	A *Anchors
 	R *an.Report
 	O *an.Originator
+
+	segPreds map[*ssa.Function]segPredicate
 }
 
 func NewCtx(p *an.Prog, a *Anchors, r *an.Report) *Ctx {
